@@ -41,6 +41,11 @@ def check(ctx):
     ctx.rule("R06.3", "solver wiring: fixed sites are exactly the terminals' site indices; fix_psi == (terminal_psi is not None); "
                       "initial psi overwritten on exactly those sites under the same test", 4)
     ctx.rule("R06.4", "terminal sites are boundary sites inside the terminal polygon", 1)
+    ctx.rule("R06.6", "the configured terminal value is the user's: the library never rewrites SolverOptions (terminal_psi in particular) - "
+                      "the options object may be shared by several solves (shared with C12 R12.6)", 1)
+    from ..effects import options_readonly
+    options_readonly(ctx, "R06.6", "a solve on a device without terminals 'normalises' terminal_psi to None on the caller's options object: the next solve that "
+                                   "re-uses the object on a device with terminals leaves its terminals unpinned (|psi| = 1 there from frame 0 on) although 0 was configured")
     f_lap = repo.func(OPS, "build_laplacian")
     # identity-row eigenvalue as actually used by set_link_exponents
     T, ip, mesh, mo = operators(repo, True, False)
